@@ -225,6 +225,35 @@ def h_time_points(ry: int, rmo: int, rd: int, h1: int, m1: int, h2: int, m2: int
     tail = _after_last_comma(j)
     got_h, got_m = _hm_of(tail)
     assert got_h == hh and got_m == mm
+    # "start and end equal the resolved values": the clock times written in the TIMEX are the resolved start and end
+    p1, p2 = _clock_pieces(j)
+    assert p1[0] * 3600 + p1[1] * 60 == bs % 86400 or (p1[0] == 24 and bs % 86400 == p1[1] * 60), ('TIMEX start differs from the resolved start', r.timex)
+    assert (p2[0] * 3600 + p2[1] * 60) % 86400 == es % 86400, ('TIMEX end differs from the resolved end', r.timex)
+
+
+def _clock_pieces(items):
+    """'(' 'T' hh [':' mm [':' ss]] ',' 'T' hh [':' mm ...] ',' ... -> [(h, m), (h, m)]"""
+    pieces, cur = [], []
+    for it in items:
+        if isinstance(it, str):
+            for ch in it:
+                if ch == ',':
+                    pieces.append(cur)
+                    cur = []
+                elif ch not in '()':
+                    cur.append(ch)
+        else:
+            cur.append(it)
+    out = []
+    for pc in pieces[:2]:
+        assert pc and pc[0] == 'T' and len(pc) >= 2 and not isinstance(pc[1], str), ('clock time expected in the TIMEX', pc)
+        h = pc[1][0]
+        m = 0
+        if len(pc) >= 4 and pc[2] == ':' and not isinstance(pc[3], str):
+            m = pc[3][0]
+        out.append((h, m))
+    assert len(out) == 2
+    return out
 
 
 def _after_last_comma(items):
